@@ -118,14 +118,18 @@ def empty_edge(test, name):
     return None
 
 
-def no_lf_edge(test, name):
-    """Edge on which the line `name` does NOT end with LF."""
+def no_lf_edge(test, name, allow_empty=False):
+    """Edge on which the line `name` does NOT end with LF (with allow_empty: or is empty - the bare end-of-stream test)."""
     neg = False
     t = test
     while isinstance(t, ast.UnaryOp) and isinstance(t.op, ast.Not):
         neg = not neg
         t = t.operand
     txt = norm_text(t)
+    if allow_empty and txt in (name, 'len(%s)' % name):
+        return 'T' if neg else 'F'
+    if allow_empty and txt in ("%s == b''" % name, "b'' == %s" % name, 'len(%s) == 0' % name):
+        return 'F' if neg else 'T'
     if txt in ("%s.endswith(b'\\n')" % name, "%s[-1:] == b'\\n'" % name, "b'\\n' == %s[-1:]" % name):
         return 'T' if neg else 'F'
     if txt in ("%s[-1:] != b'\\n'" % name, "b'\\n' != %s[-1:]" % name):
@@ -1113,9 +1117,12 @@ def d4_chunk(ctx):
         ck.expect(okp, 'C08-D4', f.qual, 'size = int(%s.split(b\';\', 1)[0].strip(), 16)' % line,
                   'the chunk size is not parsed as the hexadecimal number before any ";" extension of the line read', f.loc(ints[0].stmt) if ints else f.loc())
         # LF check dominates the parse
-        lfs = edges_where(cfg, lambda t: no_lf_edge(t, line), kinds=('if',))
+        # a size line cut off by the peer: "1" of "1f" is harmless as long as the end of the stream is noticed - the cut chunk then ends in
+        # an empty read and the next size line is empty (the trailer reader and the body reader have their own end-of-stream rules), so the
+        # bare emptiness test is accepted here next to the LF test
+        lfs = edges_where(cfg, lambda t: no_lf_edge(t, line, allow_empty=True), kinds=('if',))
         oklf = bool(lfs)
-        det = 'no test that the size line ends with LF'
+        det = 'no test that the size line ends with LF (or is empty)'
         if lfs and ints:
             for i, k in lfs:
                 n = [x for x in cfg.nodes if x.id == i][0]
